@@ -106,6 +106,9 @@ struct IWrap {
     iterator end() { return l.end(); }
     size_t size() const { return l.size(); }
     bool empty() const { return l.empty(); }
+    template <class It> bool erase_at( It const& it ) { return l.erase_at( it ); }
+    template <class S = ISet> auto rbegin() -> decltype( std::declval<S&>().rbegin()) { return l.rbegin(); }
+    template <class S = ISet> auto rend() -> decltype( std::declval<S&>().rend()) { return l.rend(); }
     // unlink the item that was inserted with the identity value of the key; false if there is no such item
     bool unlink_orig( int k )
     {
